@@ -11,38 +11,48 @@ pub open spec fn eff(s: Seq<Unifiable>) -> Seq<Unifiable> {
 
 pub open spec fn is_list(t: Unifiable) -> bool { t is SLinkedList }
 
+// The documented constructor splices a trailing list in as the rest of the new
+// list ([a | [b, c]] == [a, b, c]).  It does so whenever the last of two or more
+// terms is a list and no Nil sentinel follows it.
+pub open spec fn splices(s: Seq<Unifiable>) -> bool {
+    s.len() >= 2 && is_list(s[s.len() - 1])
+}
+
 // precondition on the term vector, from the call sites
 pub open spec fn mll_pre(vbar: bool, s: Seq<Unifiable>) -> bool {
     let e = eff(s);
     &&& no_nil(e)
-    &&& (vbar ==> e.len() >= 1)
-    &&& (vbar ==> (is_tail_term(e[e.len() - 1])
-                   || (e.len() >= 2 && e.len() == s.len() && wf_list(e[e.len() - 1])
-                       && node_count(e[e.len() - 1]) + s.len() < usize::MAX)))
+    &&& (splices(s) ==> wf_list(s[s.len() - 1]) && node_count(s[s.len() - 1]) + s.len() < usize::MAX)
+    &&& (vbar ==> e.len() >= 1 && (splices(s) || is_tail_term(e[e.len() - 1])))
 }
 
-// elements of the list that represents e[k..] under the vbar convention
-pub open spec fn lst_elems(vbar: bool, e: Seq<Unifiable>, k: int) -> Seq<Unifiable> {
+// elements of the list that represents e[k..] (e = eff(s)) under the constructor's conventions
+pub open spec fn lst_elems(vbar: bool, s: Seq<Unifiable>, k: int) -> Seq<Unifiable> {
+    let e = eff(s);
     let m = e.len() as int;
-    if vbar && k <= m - 1 {
-        if is_list(e[m - 1]) { e.subrange(k, m - 1) + elems(e[m - 1]) } else { e.subrange(k, m - 1) }
-    } else {
-        e.subrange(k, m)
-    }
+    if k <= m - 1 && splices(s) { e.subrange(k, m - 1) + elems(e[m - 1]) }
+    else if k <= m - 1 && vbar { e.subrange(k, m - 1) }
+    else { e.subrange(k, m) }
 }
 
-pub open spec fn lst_tail(vbar: bool, e: Seq<Unifiable>, k: int) -> Option<Unifiable> {
+pub open spec fn lst_tail(vbar: bool, s: Seq<Unifiable>, k: int) -> Option<Unifiable> {
+    let e = eff(s);
     let m = e.len() as int;
-    if vbar && k <= m - 1 {
-        if is_list(e[m - 1]) { tail_of(e[m - 1]) } else { Some(e[m - 1]) }
-    } else {
-        None
-    }
+    if k <= m - 1 && splices(s) { tail_of(e[m - 1]) }
+    else if k <= m - 1 && vbar { Some(e[m - 1]) }
+    else { None }
 }
 
-pub open spec fn lst_count(vbar: bool, e: Seq<Unifiable>, k: int) -> int {
+pub open spec fn lst_count(vbar: bool, s: Seq<Unifiable>, k: int) -> int {
+    let e = eff(s);
     let m = e.len() as int;
-    if vbar && k <= m - 1 && is_list(e[m - 1]) { m - 1 - k + node_count(e[m - 1]) } else { m - k }
+    if k <= m - 1 && splices(s) { m - 1 - k + node_count(e[m - 1]) } else { m - k }
+}
+
+// what a caller that wants *exactly* the given elements must pass:
+// no tail bar and nothing that the constructor would splice.
+pub open spec fn exact_elems_pre(s: Seq<Unifiable>) -> bool {
+    !splices(s) && no_nil(eff(s))
 }
 
 pub open spec fn imin(a: int, b: int) -> int { if a < b { a } else { b } }
